@@ -337,7 +337,7 @@ def _bounds_only(prog, res):
       v = norm_text(st.value).replace(' ', '')
       if t == 'sums' and 'tf.cumsum(tf.concat([bias,heights],axis=0)' in v:
         sums_def = st
-      if t == 'bias' and v == 'sums[0:1]':
+      if t == 'bias' and v == 'sums[:1]':
         recon_b = st
       if t == 'heights' and v == 'sums[1:]-sums[:-1]':
         recon_h = st
